@@ -4,9 +4,10 @@
 
     * `*tmp_i++ = get_float()` of `flt(false)` (op `.store`) is never executed with iterators that were never
       assigned or that dangle after `adj->cov.reset(..)`            (`run_no_uninit_store`, all event sequences);
-    * the test `tmp_i != tmp_e` of `cov_mat(false)` (op `.iterErr`)  (`run_no_uninit_covend`, under the table
-      condition `iterErrGuarded`, which is FALSE on the current tree: `<cov-mat></cov-mat>` reads both iterators
-      unassigned; see notes/proposed/C11-adjres-covmat-uninit.diff).
+    * the test `tmp_i != tmp_e` of `cov_mat(false)` (op `.iterErr`)  (`run_no_uninit_covend_all`, all event sequences;
+      the table condition `iterErrGuarded` is `decide`d on the generated tables (`iterErrGuarded_true`).  It was
+      FALSE before fix 8840ff08 (`<cov-mat></cov-mat>` read both iterators unassigned) and becomes false again,
+      breaking the proof, if the guard `state != s_flt_end ||` is dropped).
 
   Method: an abstract interpretation of the handler bodies.  The abstract value `A` says what is KNOWN at a program
   point (`b`: `tmp_i` assigned, `e`: `tmp_e` assigned, `ni`: the top of the stack of open elements is a handler whose
@@ -530,9 +531,11 @@ def tablesOk (k : Bool) : Bool :=
 theorem tables_ok : tablesOk false = true := by decide +kernel
 
 /-- every `tmp_i != tmp_e` test (other than the guard of a store) stands behind `state != s ||` with `s` one of
-    `initStates`, at a point where the invariant holds.  FALSE on the current tree (`cov_mat(false)` is unguarded);
-    true with notes/proposed/C11-adjres-covmat-uninit.diff -/
+    `initStates`, at a point where the invariant holds.  (False before fix 8840ff08, where `cov_mat(false)` was unguarded.) -/
 def iterErrGuarded : Bool := tablesOk true
+
+/-- the strict scan passes on the generated tables of the current tree -/
+theorem iterErrGuarded_true : iterErrGuarded = true := by decide +kernel
 
 theorem tablesOk_unknown {k : Bool} (h : tablesOk k = true) : scan k (startOps .unknown_) topA = true := by
   simp only [tablesOk, Bool.and_eq_true] at h; exact h.1
@@ -653,5 +656,9 @@ theorem run_store_invariant (evs : List Event) :
     executed with unassigned / dangling iterators -/
 theorem run_no_uninit_covend (hg : iterErrGuarded = true) (evs : List Event) : (run St.init evs).uninitCovEnd = false :=
   (run_inv hg evs St.init (init_inv true)).uc rfl
+
+/-- GOAL 2, unconditional: for every event sequence -/
+theorem run_no_uninit_covend_all (evs : List Event) : (run St.init evs).uninitCovEnd = false :=
+  run_no_uninit_covend iterErrGuarded_true evs
 
 end Gama.AdjRes
